@@ -156,3 +156,42 @@ package analysis
 //@   at call InsertError#0 before assert[unused-report-at-the-declaration] arg3 == oneVar.Loc
 //@   at call InsertError#0 before assert[unused-report-only-in-the-first-pass] a.checkTerm == results.CheckTermFirst
 //@ end
+
+// ---- C20: duplicate function parameter (type 13) ----
+// reported exactly for a later parameter that repeats an earlier one and is not the "_" placeholder: only then
+// (site guard), and for every such pair (neither loop leaves early; one report per matching pair).
+//@ func (*Analysis).checkDuplicateFunParam
+//@   props C20
+//@   at call InsertError#0 before assert[duplicate-param-only-for-a-repeated-real-name] arg1 == common.CheckErrorDuplicateParam && a.checkTerm == results.CheckTermFirst
+//@        && 0 <= i && i < j && j < len(node.ParList) && streq(node.ParList[j], node.ParList[i]) && !streq(node.ParList[j], "_")
+//@   loop for:j<parLen exits-early-only-if [every-later-parameter-is-compared] false
+//@   loop for:i<parLen-1 exits-early-only-if [every-parameter-starts-a-scan] false
+//@   loop for:j<parLen step [every-repeated-real-name-is-reported] prev(j) < len(node.ParList) && !streq(node.ParList[prev(j)], "_") && streq(node.ParList[prev(j)], node.ParList[i])
+//@        ==> hits("InsertError#0") == prev(hits("InsertError#0")) + 1
+//@   loop for:j<parLen invariant 0 <= i && i < j && j <= parLen && parLen == len(node.ParList)
+//@   loop for:i<parLen-1 invariant 0 <= i && parLen == len(node.ParList)
+//@ end
+
+// ---- C05/C14: the scope recorded for a block statement covers the whole statement ----
+// Position-based requests (definition, completion) find the scope of the cursor by range; the until-condition of a
+// repeat and the header of a for belong to the statement's scope, so the scope's range must be the statement's.
+//@ func (*Analysis).cgRepeatStat
+//@   props C05 C14
+//@   at call CreateScopeInfo#0 before assert[scope-range-is-the-whole-statement] arg2 == node.Loc && arg0 == a.curScope
+//@ end
+//@ func (*Analysis).cgForNumStat
+//@   props C05 C14
+//@   at call CreateScopeInfo#0 before assert[scope-range-is-the-whole-statement] arg2 == node.Loc && arg0 == a.curScope
+//@ end
+//@ func (*Analysis).cgForInStat
+//@   props C05 C14
+//@   at call CreateScopeInfo#0 before assert[scope-range-is-the-whole-statement] arg2 == node.Loc && arg0 == a.curScope
+//@ end
+//@ func (*Analysis).cgDoStat
+//@   props C05 C14
+//@   at call CreateScopeInfo#0 before assert[scope-range-is-the-whole-statement] arg2 == node.Loc && arg0 == a.curScope
+//@ end
+//@ func (*Analysis).cgWhileStat
+//@   props C05 C14
+//@   at call CreateScopeInfo#0 before assert[scope-range-is-the-whole-statement] arg2 == node.Loc && arg0 == a.curScope
+//@ end
